@@ -12,7 +12,8 @@ def regen_types(ck):
 
 def schema_file(ck):
     out = os.path.join(ck.work, "schema.json")
-    p = subprocess.run(["python3", os.path.join(vlib.VERIF, "tools/tlb2json.py"), os.path.join(vlib.SPEC, "schemas/block_core.tlb")],
+    p = subprocess.run(["python3", os.path.join(vlib.VERIF, "tools/tlb2json.py"), os.path.join(vlib.SPEC, "schemas/block_core.tlb"),
+                        os.path.join(vlib.SPEC, "schemas/block_more.tlb")],
                        stdout=subprocess.PIPE, stderr=subprocess.PIPE, text=True)
     if p.returncode != 0:
         raise Infra("tlb2json failed: " + p.stderr[-2000:])
@@ -32,6 +33,9 @@ def prim_vectors(ck):
         raise Infra("Tlb_Gen produced only %d vectors" % len(vecs))
     for i, v in enumerate(vecs):
         v["vec"] = i
+        if v.get("dec") is not True:
+            raise Infra("specification self-check failed: TlbDec!Dec does not read back what TlbSem!Enc wrote for vector %d (%s %s)" % (i, v["type"], json.dumps(v["v"])[:200]))
+    ck.extra["spec_selfcheck_Dec_of_Enc_vectors"] = len(vecs)
     vp, rp = os.path.join(ck.work, "prim_vec.ndjson"), os.path.join(ck.work, "prim_out.ndjson")
     vlib.write_ndjson(vp, vecs)
     ck.run_vh(["replay", "C04", "-in", vp, "-out", rp])
